@@ -29,7 +29,7 @@ LEAN = dict(
     theorems=[T + n for n in [
         "validate_ok_iff", "validate_perm", "rejected_iff", "tamper_rejected", "remove_inner_rejected", "remove_base_rejected",
         "foreign_rejected", "substitute_rejected", "fork_rejected", "dup_pid_rejected", "manifest_mismatch_rejected",
-        "remove_newest_accepted", "ub_damage_rejected"]],
+        "remove_newest_accepted", "ub_damage_rejected", "ub_parse_iff"]],
     drivers=["drv_chn"],
 )
 
@@ -408,6 +408,7 @@ def gen_cases(ctx):
             n = [1, 2, 2, 3, 3, 4, 2][i % 7]
             cases.append(dict(kind="rec", cls=["ih5", "mf"][i % 2], seed=rng.randrange(1 << 30), n=n,
                               open_last=(i % 5 == 4), mode="all", all_insdel=(n <= 2)))
+        cases = cases[nq:] + cases[:nq]  # the long cases first
         ctx.exhaustive_spaces.append("28 records (both classes, 1-4 containers): a flip at EVERY byte position of every committed payload "
                                      "(random non-zero mask); for the records with <= 2 containers also an insertion and a deletion at every position")
     return cases
